@@ -6,7 +6,11 @@ real run : (mode "async") the real AsyncTCPNetworkServer / AsyncUDPNetworkServer
            client echoes, released at harness-chosen loop turns (vlib/c18_async.py);
            (mode "threads") the real StandaloneTCPNetworkServer / StandaloneUDPNetworkServer with real OS threads (plain
            threads and NetworkServerThread start()/join()), every blocking call under a watchdog, run in worker processes
-           (vlib/c18_threads.py, vlib/c18_pool.py).
+           (vlib/c18_threads.py, vlib/c18_pool.py); OS schedules are sampled, EXCEPT for the hand-over between a calling
+           thread and the exit of the ThreadsPortal, which is crossed deterministically (`"gated": 1`: a harness loop_factory,
+           a reporting stand-in for the portal's RLock and a delegating portal stop the threads at scripted steps);
+           (mode "portal") backend.create_threads_portal() driven directly by caller threads while it exits, same gates
+           (vlib/c18_gates.py).
 model run: the observed linearisation (which call started / returned when, with what outcome, the is_serving /
            is_listening flags seen from outside, quiescence points) is given to the Lean transition systems
            EasyNet.Life.A / EasyNet.Life.S (endriver, `life-async` / `life-sa`), which search for a model execution
@@ -49,6 +53,7 @@ TRUSTED_BASE = [
     "asyncio 3.12: a cancellation is delivered at the suspension point the task is parked on; TaskGroup exit waits for its children; Event.set wakes every waiter",
     "threading.RLock as a mutex with owner, threading.Event; ThreadsPortal abstracted as: accepts calls while entered, refuses with RuntimeError after exit, drains pending calls on exit",
     "harness: deterministic loop (c10_vloop), backend.getaddrinfo override (public backend= parameter), scripted request handler, watchdog + worker processes, endriver parser",
+    "harness gates (vlib/c18_gates.py): asyncio.SelectorEventLoop subclass through runner_options={'loop_factory': ...}, a delegating AbstractThreadsPortal through backend.create_threads_portal(), threading.RLock replaced by a reporting RLock only while ThreadsPortal() is constructed; gates only delay threads (every hold has a time-out)",
 ]
 ASSUMPTIONS = [
     "request handlers do not leak exceptions into the server task group (C17) and terminate when cancelled",
@@ -59,7 +64,11 @@ RULE = (
     "case = history: 1-4 callers x <= 4 calls each from {serve_forever, shutdown, server_close, cancel of a serve task, "
     "is_serving/is_listening probe, client echo, persistent client; async also server_activate / `async with server` "
     "(2-3 overlapping activations, activation lock contended, oracle only); threads also NetworkServerThread start / join "
-    "and a rendez-vous in the start-up window} x schedule (which caller moves at which loop turn, "
+    "and a rendez-vous in the start-up window; gated: get_addresses, persistent client, a cross-thread call stopped at "
+    "{before the portal lock, portal checked, waiter registered} until the portal exit / loop shut-down has reached {flag flipped, "
+    "exit returned, main coroutine done, last loop iteration done, before / after loop.close()}; ThreadsPortal directly: "
+    "run_sync / run_sync_soon / run_coroutine / run_coroutine_soon x the same windows x exit normal / with an exception} "
+    "x schedule (which caller moves at which loop turn, "
     "sleep(0) hops; for threads: barriers and PRNG jitters) x TCP/UDP x suspension points inside service_init and the "
     "listener factory; non-trivial = class of (outcomes seen, calls landing inside start-up / tear-down, restarts, clients); "
     "distinct by case digest"
@@ -73,7 +82,7 @@ NOISE_PREFIX = "@"
 # ----------------------------------------------------------------------------------------------
 
 def run_real(case: dict) -> list[str]:
-    if case.get("mode") == "threads":
+    if case.get("mode") in ("threads", "portal"):
         from vlib import c18_pool
         return c18_pool.run_case(case)
     from vlib import c18_async
@@ -88,8 +97,14 @@ def model_input(case: dict, real: list[str]):
     if any(ln.startswith(("infra", "harness-exc", "@skipped")) for ln in real):
         return None
     ops = real_for_diff(case, real)
+    if case.get("mode") == "portal":
+        # ThreadsPortal driven directly: Life.S abstracts the portal to accept / refuse / drain; oracle only
+        return None
     if case.get("mode") == "threads":
         from vlib import c18_pool
+        if any(op in ("conn", "disc") for p in case["progs"] for op in p):
+            # Life.S has no persistent clients (a server_close() that leaves the serve thread running for a client)
+            return None
         # one more model caller per NetworkServerThread (its serve_forever runs in a thread of its own)
         n_nst = sum(1 for p in case["progs"] for op in p if op == "tstart")
         return f"life-sa {len(case['progs']) + 1 + n_nst} {c18_pool.fix_flag()}", ops
@@ -186,6 +201,10 @@ def oracle_threads(case: dict, real: list[str]) -> str | None:
             return f"call {c['caller']} {c['op']} never returned"
         if c["out"].startswith("exc:"):
             return f"call {c['caller']} {c['op']} raised {c['out'][4:]}"
+    for k, ln in tr["notes"]:
+        # get_addresses() of the gated histories: returns (whatever the state of the server), raises nothing
+        if ln.startswith("@x-ret ") and not ln.endswith(" ok"):
+            return "get_addresses() raised " + ln.split()[-1][4:]
     # NetworkServerThread: start() = run serve_forever in a new thread and wait until the server is ready; it must come
     # back in every case (server up, or its serve_forever over: refused, stopped during the set-up, …) and not before;
     # join() = shutdown() + Thread.join(): when it returns (no timeout) the server thread is gone
@@ -298,17 +317,103 @@ def tie_problems(stats) -> list[str]:
     return []
 
 
+def oracle_portal(case: dict, real: list[str]) -> str | None:
+    """ThreadsPortal driven directly.  From the property ("no call deadlocks"; "ThreadsPortal refuses calls after exit and
+    drains pending ones") and the documented contract of the portal (lowlevel/api_async/backend/abc.py): a call made
+    while the portal is neither entered nor exited returns what the function returns; a call made when "the portal is not
+    entered or exited" raises RuntimeError (and the function is not run); a coroutine still running when the portal is
+    shut down may be cancelled (concurrent.futures.CancelledError); nothing else — in particular no call blocks for
+    ever — and when the portal's __aexit__ has returned every call it had accepted has been run."""
+    first: dict[str, int] = {}
+    calls: list[dict] = []
+    open_call: dict[int, dict] = {}
+    ran: dict[tuple[int, int], list[int]] = {}
+    done: dict[tuple[int, int], list[int]] = {}
+    late: list[str] = []
+    for k, ln in enumerate(real):
+        w = ln.split()
+        if not w:
+            continue
+        if ln.startswith("@hang"):
+            stacks = " | ".join(x for x in real if x.startswith("@stack"))[:600]
+            return f"a ThreadsPortal call never returned (watchdog expired twice, second time alone): {ln} {stacks}"
+        if w[0] in ("entered", "xb", "xd", "loop-end", "final"):
+            first.setdefault(w[0], k)
+        elif w[0] == "loop-exc":
+            return "the loop thread ended with an exception: " + ln
+        elif w[0] == "call":
+            c = {"i": int(w[1]), "op": w[2], "k": int(w[3]), "start": k, "ret": None, "out": None}
+            calls.append(c)
+            open_call[c["i"]] = c
+        elif w[0] == "ret":
+            c = open_call.pop(int(w[1]), None)
+            if c is not None:
+                c["ret"], c["out"] = k, w[2]
+        elif w[0] in ("run", "done", "cancelled"):
+            key = (int(w[1]), int(w[2]))
+            if w[0] == "run":
+                ran.setdefault(key, []).append(k)
+            elif w[0] == "done":
+                done.setdefault(key, []).append(k)
+            if "xd" in first:
+                late.append(ln)
+    if "final" not in first or "loop-end" not in first:
+        return "the run did not complete (loop thread still alive)"
+    xb, xd, entered = first.get("xb"), first.get("xd"), first.get("entered")
+    for c in calls:
+        name = f"{c['op']} (thread {c['i']}, call {c['k']})"
+        key = (c["i"], c["k"])
+        out = c["out"]
+        is_coro = c["op"].startswith("coro")
+        if out is None:
+            return f"{name} never returned"
+        n_run = len(ran.get(key, []))
+        if out.startswith("ok:"):
+            if out != f"ok:{100 * c['i'] + 7 * c['k'] + 1}":
+                return f"{name} returned a wrong result: {out}"
+            if n_run != 1 or not (c["start"] < ran[key][0] < c["ret"]):
+                return f"{name} returned a result although its function was run {n_run} times during the call"
+            if is_coro and not any(c["start"] < d < c["ret"] for d in done.get(key, [])):
+                return f"{name} returned a result although its coroutine had not finished"
+        elif out == "RuntimeError":
+            if n_run:
+                return f"{name} was refused with RuntimeError although its function was run"
+            if not ((xb is not None and xb < c["ret"]) or entered is None or c["start"] < entered):
+                return f"{name} was refused with RuntimeError while the portal was running (entered, exit not begun)"
+        elif out == "Cancelled":
+            if not is_coro:
+                return f"{name} ended with concurrent.futures.CancelledError (not a coroutine call)"
+            if xb is None or xb > c["ret"]:
+                return f"{name} was cancelled although the portal was not shutting down"
+            if done.get(key):
+                return f"{name} was cancelled although its coroutine had finished"
+        else:
+            return f"{name} raised {out[4:] if out.startswith('exc:') else out}"
+        if xd is not None and c["start"] > xd and out != "RuntimeError":
+            return f"{name} was issued after the portal's __aexit__ had returned and was not refused with RuntimeError: {out}"
+    if late:
+        return "the portal's __aexit__ returned before a call it had accepted was run (pending call not drained): " + late[0]
+    return None
+
+
+def _pool_lines(real: list[str]) -> str | None:
+    for ln in real:
+        if ln.startswith("infra"):
+            INFRA.append(ln)
+            return "skip"
+        if ln.startswith("harness-exc"):
+            return "run did not complete: " + ln
+        if ln.startswith("@skipped"):
+            return "skip"
+    return None
+
+
 def oracle(case: dict, real: list[str]) -> str | None:
-    if case.get("mode") == "threads":
-        for ln in real:
-            if ln.startswith("infra"):
-                INFRA.append(ln)
-                return None
-            if ln.startswith("harness-exc"):
-                return "run did not complete: " + ln
-            if ln.startswith("@skipped"):
-                return None
-        return oracle_threads(case, real)
+    if case.get("mode") in ("threads", "portal"):
+        r = _pool_lines(real)
+        if r is not None:
+            return None if r == "skip" else r
+        return oracle_portal(case, real) if case["mode"] == "portal" else oracle_threads(case, real)
     for ln in real:
         if ln.startswith(("harness-exc", "stalled")):
             return "run did not complete: " + ln
@@ -435,8 +540,23 @@ def oracle(case: dict, real: list[str]) -> str | None:
 def nontrivial(case: dict, real: list[str]) -> str | None:
     if any(ln.startswith(("@skipped", "infra", "harness-exc")) for ln in real):
         return None
+    if case.get("mode") == "portal":
+        # class = entry points used x outcomes seen x the step / shut-down point of the first window
+        ops = sorted({op for p in case["progs"] for op in p if not op.startswith("w:")})
+        outs = sorted({ln.split()[2].split(":")[0] for ln in real if ln.startswith("ret ")})
+        h = next((h for h in case.get("holds", []) if not h["at"].startswith("L:")), None)
+        win = (h["at"].split(":")[1] + ">" + h["until"][0].split(":")[1]) if h else "-"
+        return "P" + case.get("exit", "ok")[0] + "/" + "+".join(ops)[:40] + "/" + "+".join(outs) + "/" + win
     tr = parse_trace(real)
     tags: list[str] = []
+    if case.get("gated"):
+        # a call really stopped in the hand-over window: which step, released by what
+        for ln in real:
+            if ln.startswith("@g ") and not ln.startswith("@g L:") and " held:" in ln:
+                tags.append("gate-" + ln.split()[1].split(":")[1].split("#")[0] + "-" + ln.split("held:")[1])
+                break
+        else:
+            tags.append("gate-none")
     epi = len(case["progs"])          # the epilogue caller; larger ids: serve_forever threads of NetworkServerThread
     serves = [c for c in tr["calls"] if c["op"] == "serve" and c["caller"] != epi]
     outs = {c["out"] for c in tr["calls"] if c["caller"] != epi}
@@ -502,7 +622,7 @@ def nontrivial(case: dict, real: list[str]) -> str | None:
         tags.append("client")
     if not tags:
         return None
-    first = [t for t in ("act-queued+close", "act-queued", "nst-start-never-up", "nst-start-refused", "nst-join") if t in tags]
+    first = [t for t in tags if t.startswith("gate-")] + [t for t in ("act-queued+close", "act-queued", "nst-start-never-up", "nst-start-refused", "nst-join") if t in tags]
     tags = first + [t for t in sorted(set(tags)) if t not in first]
     return case.get("mode", "async")[0] + case.get("kind", "tcp")[0] + "/" + "+".join(tags[:3])
 
@@ -537,6 +657,9 @@ def shrink(case: dict):
     for i in range(len(progs)):
         for j in range(len(progs[i])):
             yield {**case, "progs": progs[:i] + [progs[i][:j] + progs[i][j + 1:]] + progs[i + 1:]}
+    holds = case.get("holds", [])
+    for i in range(len(holds)):
+        yield {**case, "holds": holds[:i] + holds[i + 1:]}
     for i in range(len(sched)):
         yield {**case, "sched": sched[:i] + sched[i + 1:]}
     for i, e in enumerate(sched):
@@ -695,7 +818,15 @@ def generate(rng, tier: str, boost: int):
     n_act = (150 if tier == "quick" else 3000) * boost
     n_thr = (150 if tier == "quick" else 1500) * boost
     # the threaded histories run in worker processes while the deterministic ones are evaluated here
-    thr_cases = c18_pool.corpus_threads() + [c18_pool.rand_case(rng) for _ in range(n_thr)]
+    # first the gated ones (deterministic crossings of the ThreadsPortal hand-over windows: a hang there costs one
+    # DEAD_START period, twice), then the sampled ones
+    n_gat = (40 if tier == "quick" else 300) * boost
+    n_por = (120 if tier == "quick" else 1000) * boost
+    grng = core.sub_rng(core.seed_from_env(), ID, tier, "gates", boost)      # (the stream of the older generators is unchanged)
+    cg, cp = c18_pool.corpus_gated(), c18_pool.corpus_portal()
+    mixed = [c for pair in itertools.zip_longest(cg, cp) for c in pair if c is not None]
+    thr_cases = mixed + [c18_pool.rand_portal(grng) for _ in range(n_por)] + \
+        [c18_pool.rand_gated(grng) for _ in range(n_gat)] + c18_pool.corpus_threads() + [c18_pool.rand_case(rng) for _ in range(n_thr)]
     c18_pool.prefetch(thr_cases)
     for _ in range(n_async):
         yield _dense_async(rng) if rng.random() < 0.5 else _rand_async(rng)
@@ -717,4 +848,4 @@ def generate(rng, tier: str, boost: int):
 def extra_coverage(stats) -> dict:
     from vlib import c18_pool
     return {"model_scope": "EasyNet.Life.A (async) / EasyNet.Life.S (standalone, fix flag from a behavioural probe)",
-            "standalone_fix_flag": c18_pool.fix_flag(), "threads_infra_retries": c18_pool.STATS.get("retries", 0)}
+            "standalone_fix_flag": c18_pool.fix_flag(), "threads_infra_retries": c18_pool.STATS.get("retries", 0) + c18_pool.STATS.get("g_retries", 0)}
